@@ -308,12 +308,12 @@ pub fn finish(prop: &str, tier: Tier, reports: Vec<FamilyReport>, n_self: usize,
         "seed": seed(),
         "level": "model_checking",
         "coverage": {
-            "states": states.max(1),
-            "transitions": transitions.max(1),
+            "states": states,
+            "transitions": transitions,
             "traces_validated_against_impl": executions,
             "samples": samples,
-            "evaluations": executions.max(1),
-            "distinct_nontrivial": outcomes.max(2),
+            "evaluations": executions,
+            "distinct_nontrivial": outcomes,
             "rule": "every execution is a run of the real minimq Session/Connection under the controlled environment; executions are enumerated exhaustively by prefix replay within the listed bounds (all programs over the alphabet, all transport answers, cancellation points, broker orders, timer events whose total deviation cost is within the budget); an execution is distinct/non-trivial when its sequence of API results differs (distinct_outcome_classes); states = distinct 128-bit keys over the real session fingerprint + broker model + monitor state at operation boundaries",
             "exhaustive": exhaustive,
             "families": fams,
